@@ -3,6 +3,8 @@
    operations = every op list). Only statements + exact. *)
 From Utp Require Import Base.Prelude Wire.SeqNr Wire.Header Sock.Dispatcher Sock.Dispatcher_Proofs
   Sock.DispObs Sock.DispObs_Proofs.
+From Utp Require Import Sock.DispFresh_Proofs Sock.DispSlots_Proofs Sock.DispPending_Proofs
+  Sock.DispWiring_Proofs Sock.DispFreshTable_Proofs.
 
 (* keys unique, table never larger than the limit, backlog bounds: every reachable state *)
 Theorem c12_keys_unique_and_limit : forall max_streams random ops,
@@ -89,3 +91,155 @@ Print Assumptions c12_live_never_evicted.
 Print Assumptions c12_incoming_creation.
 Print Assumptions c12_outgoing_creation.
 Print Assumptions c12_late_shutdown_keeps_new_connection.
+
+(* ================================================================== connection ids of SYNs *)
+(* "connection ids in use between one address pair are unique", SYN side.  The bound the
+   pigeonhole argument needs is on the configured limit: conn_id_space_ok m := m <=? 32768
+   (default 128). *)
+
+(* get_next_free_conn_id, run with fuel = table size + 1, never runs out of fuel below the bound:
+   the id it returns is not in use, i.e. the bounded model loop IS the unbounded Rust loop *)
+Theorem c12_conn_id_loop_finds_free_id : forall s addr cid,
+  NoDup (keys (d_streams s)) -> Z.of_nat (length (d_streams s)) < 32768 ->
+  has_stream s {| k_addr := addr;
+                  k_conn := next_free_conn_id (S (length (d_streams s))) s addr cid |} = false.
+Proof. exact next_free_conn_id_fresh. Qed.
+
+(* every step of every state satisfying the invariant: the extracted predicate holds *)
+Theorem c12_syn_fresh_every_step : forall s o s' e,
+  d_inv s -> conn_id_space_ok (d_max_streams s) = true -> dstep s o = (s', e) ->
+  c12_syn_fresh_ok (dobs_of s) (syn_keys e) = true.
+Proof. exact c12_syn_fresh_model. Qed.
+
+(* every step of every run from a fresh dispatcher (dfresh_trace = per step: the table before the
+   step and the (address, id) of the SYNs the step sent) *)
+Theorem c12_syn_fresh_every_trace : forall max_streams random ops,
+  conn_id_space_ok max_streams = true ->
+  forallb (fun p => c12_syn_fresh_ok (fst p) (snd p)) (dfresh_trace (dstate_new max_streams random) ops) = true.
+Proof. exact c12_syn_fresh_trace_new. Qed.
+
+(* the same in plain terms: the id is a key of the table neither before nor after the step *)
+Theorem c12_syn_id_not_in_use : forall s o s' e,
+  d_inv s -> d_max_streams s <= 32768 -> dstep s o = (s', e) ->
+  forall a cid q, In (EvSentSyn a cid q) e ->
+    ~ In {| k_addr := a; k_conn := cid |} (keys (d_streams s)) /\
+    ~ In {| k_addr := a; k_conn := cid |} (keys (d_streams s')).
+Proof. exact syn_id_not_in_use. Qed.
+
+(* the bound is needed: max_active_streams = 32769 and a table holding all 32768 even ids of one
+   address make the model loop return an id that is in use (the Rust loop would not terminate) *)
+Theorem c12_syn_fresh_without_bound_refuted :
+  exists s o, d_inv s /\ d_max_streams s = 32769 /\
+    c12_syn_fresh_ok (dobs_of s) (syn_keys (snd (dstep s o))) = false.
+Proof. exact c12_syn_fresh_needs_bound. Qed.
+
+(* which id a SYN carries (the first free one counting from next_connection_id in steps of 2,
+   cand n j = n for j = 0, (n + 2j) mod 2^16 otherwise) and what happens to the counter *)
+Theorem c12_syn_step_id : forall s o s' e a cid q,
+  d_inv s -> d_max_streams s <= 32768 -> dstep s o = (s', e) -> In (EvSentSyn a cid q) e ->
+  (exists j, Z.of_nat j < Z.max 0 (d_max_streams s) /\ cid = cand (d_next_conn_id s) j /\
+     (forall i, (i < j)%nat -> In {| k_addr := a; k_conn := cand (d_next_conn_id s) i |} (keys (d_streams s'))) /\
+     ~ In {| k_addr := a; k_conn := cid |} (keys (d_streams s'))) /\
+  (no_connect_err e -> d_next_conn_id s' = wadd16 cid 2) /\
+  (~ no_connect_err e -> d_next_conn_id s' = cid).
+Proof. exact syn_step_id. Qed.
+
+(* ================================================================== pending connects *)
+(* The id of a pending connect is recorded nowhere (`connecting` = token + seq_nr); uniqueness
+   among pending connects rests on the counter.  WINDOW THEOREM, all op lists `mid`: a SYN that
+   reserved a slot and any later SYN carry different ids while
+   (connect requests handled in between + 1) * max_active_streams < 2^15. *)
+Theorem c12_syn_ids_distinct_in_window : forall s o1 s1 e1 a c1 q1 mid o2 s3 e3 a' c2 q2,
+  d_inv s -> d_max_streams s <= 32768 ->
+  dstep s o1 = (s1, e1) -> In (EvSentSyn a c1 q1) e1 -> no_connect_err e1 ->
+  dstep (drun s1 mid) o2 = (s3, e3) -> In (EvSentSyn a' c2 q2) e3 ->
+  (connect_steps (dev_trace s1 mid) + 1) * Z.max 1 (d_max_streams s) < 32768 ->
+  c1 mod M16 <> c2 mod M16.
+Proof. exact syn_ids_distinct_in_window. Qed.
+
+Theorem c12_syn_ids_distinct_in_window_reachable :
+  forall max_streams random pre o1 s1 e1 a c1 q1 mid o2 s3 e3 a' c2 q2,
+  max_streams <= 32768 ->
+  dstep (drun (dstate_new max_streams random) pre) o1 = (s1, e1) ->
+  In (EvSentSyn a c1 q1) e1 -> no_connect_err e1 ->
+  dstep (drun s1 mid) o2 = (s3, e3) -> In (EvSentSyn a' c2 q2) e3 ->
+  (connect_steps (dev_trace s1 mid) + 1) * Z.max 1 max_streams < 32768 ->
+  c1 mod M16 <> c2 mod M16.
+Proof. exact syn_ids_distinct_in_window_reachable. Qed.
+
+(* outside the window it fails: one connect stays pending while 32767 others are handled *)
+Theorem c12_pending_ids_distinct_refuted :
+  let '(s1, e1) := dstep (drun pend_s0 [DoConnect 5 100]) run_ctl in
+  let s2 := drun s1 pend_wrap_ops in
+  let '(s3, e3) := dstep (drun s2 [DoConnect 5 101]) run_ctl in
+  e1 = [EvSentSyn 5 7 100] /\ e3 = [EvSentSyn 5 7 0] /\
+  pending s3 5 = [{| cn_token := 100; cn_seq := 100 |}; {| cn_token := 101; cn_seq := 0 |}] /\
+  connect_steps (dev_trace s1 pend_wrap_ops) = 32767.
+Proof. exact pending_ids_distinct_refuted. Qed.
+
+(* the documented boundary: the id of a pending connect is not reserved in the table; an inbound
+   SYN of the same peer takes the key and then receives the answer to our SYN *)
+Theorem c12_pending_id_reserved_refuted :
+  exists ops a cid q token synack,
+    let s := drun pend_s0 ops in
+    In [EvSentSyn a cid q] (map (fun x => match x with (_, _, e, _) => e end) (dev_trace pend_s0 ops)) /\
+    In {| cn_token := token; cn_seq := q |} (pending s a) /\
+    In {| k_addr := a; k_conn := cid |} (keys (d_streams s)) /\
+    dm_type synack = ST_STATE /\ dm_conn synack = cid /\ dm_ack synack = q /\
+    let '(s', e') := dstep s (DoRunOnce [] (ArmRecv a (Some synack))) in
+    e' = [EvForward {| k_addr := a; k_conn := cid |}] /\
+    In {| cn_token := token; cn_seq := q |} (pending s' a).
+Proof. exact pending_id_reserved_refuted. Qed.
+
+(* the key of an outgoing connection is the connection id of the SYN-ACK (matched by ack_nr
+   only), not necessarily the id our SYN announced *)
+Theorem c12_outgoing_key_is_announced_id_refuted :
+  exists ops a cid q token synack k,
+    let s := drun pend_s0 ops in
+    In [EvSentSyn a cid q] (map (fun x => match x with (_, _, e, _) => e end) (dev_trace pend_s0 ops)) /\
+    In {| cn_token := token; cn_seq := q |} (pending s a) /\
+    snd (dstep s (DoRunOnce [] (ArmRecv a (Some synack)))) = [EvConnected token k] /\
+    k_addr k = a /\ k_conn k <> cid.
+Proof. exact outgoing_key_is_announced_id_refuted. Qed.
+
+(* what the key of a created outgoing connection IS, every step *)
+Theorem c12_outgoing_connection_key : forall s o s' e t k,
+  d_inv s -> dstep s o = (s', e) -> In (EvConnected t k) e ->
+  exists pushes addr m c m1 m2 sid,
+    o = DoRunOnce pushes (ArmRecv addr (Some m)) /\ dm_type m = ST_STATE /\
+    k = {| k_addr := addr; k_conn := dm_conn m |} /\
+    pending s addr = m1 ++ c :: m2 /\ cn_token c = t /\ cn_seq c = dm_ack m /\
+    (forall x, In x m1 -> cn_seq x <> dm_ack m) /\ pending s' addr = m1 ++ m2 /\
+    ~ In k (keys (d_streams s)) /\ In (live_entry k sid) (d_streams s') /\
+    In (t, CrOk k) (d_results s') /\ ~ In t (d_dead_connectors s).
+Proof. exact connected_event_facts. Qed.
+
+Print Assumptions c12_conn_id_loop_finds_free_id.
+Print Assumptions c12_syn_fresh_every_step.
+Print Assumptions c12_syn_fresh_every_trace.
+Print Assumptions c12_syn_id_not_in_use.
+Print Assumptions c12_syn_fresh_without_bound_refuted.
+Print Assumptions c12_syn_step_id.
+Print Assumptions c12_syn_ids_distinct_in_window.
+Print Assumptions c12_syn_ids_distinct_in_window_reachable.
+Print Assumptions c12_pending_ids_distinct_refuted.
+Print Assumptions c12_pending_id_reserved_refuted.
+Print Assumptions c12_outgoing_key_is_announced_id_refuted.
+Print Assumptions c12_outgoing_connection_key.
+
+(* the same under the weaker, observable hypothesis conn_id_space_ok_obs m pre :=
+   (m <=? 32768) || (table size + SYN backlog of the observation before the step <? 32768),
+   which also covers a limit above 32768 while the table is small *)
+Theorem c12_syn_fresh_every_step_obs : forall s o s' e,
+  d_inv s -> conn_id_space_ok_obs (d_max_streams s) (dobs_of s) = true -> dstep s o = (s', e) ->
+  c12_syn_fresh_ok (dobs_of s) (syn_keys e) = true.
+Proof. exact c12_syn_fresh_model_obs. Qed.
+
+Theorem c12_syn_fresh_every_trace_obs : forall max_streams ops s,
+  d_inv s -> d_max_streams s = max_streams ->
+  forallb (fun p => implb (conn_id_space_ok_obs max_streams (fst p)) (c12_syn_fresh_ok (fst p) (snd p)))
+          (dfresh_trace s ops) = true.
+Proof. exact c12_syn_fresh_trace_obs. Qed.
+
+Print Assumptions c12_syn_fresh_every_step_obs.
+Print Assumptions c12_syn_fresh_every_trace_obs.
